@@ -12,6 +12,8 @@ out_path = os.path.join(VERIF, "seeded", "MATRIX.json")
 if "--out" in args:
     out_path = args[args.index("--out") + 1]
     args = [a for a in args if a not in ("--out", out_path)]
+own_only = "--own-only" in args        # re-run only the check of the seed's own property and refresh that cell of an existing matrix
+args = [a for a in args if a != "--own-only"]
 if args:
     seeds = [s for s in seeds if s in args]
 matrix = json.load(open(out_path)) if os.path.exists(out_path) else {}
@@ -30,7 +32,7 @@ for sd in seeds:
     row = {}
     t0 = time.time()
     try:
-        for pid in claimed:
+        for pid in ([sd.split("-")[0]] if own_only else claimed):
             r = sh("cd %s && timeout 900 ./check %s --tier quick" % (VERIF, pid))
             txt = r.stdout + r.stderr
             if "VIOLATION property=%s" % pid in txt:
@@ -39,10 +41,16 @@ for sd in seeds:
                 row[pid] = "exit %d" % r.returncode
     finally:
         sh("git -C %s checkout -- ." % REPO)
-    matrix[sd] = {"own_property": sd.split("-")[0], "detected_by": row, "seconds": round(time.time() - t0)}
+    if own_only and sd in matrix and "detected_by" in matrix[sd]:
+        own = sd.split("-")[0]
+        matrix[sd]["detected_by"].pop(own, None)
+        matrix[sd]["detected_by"].update(row)
+        matrix[sd]["own_rechecked_at"] = sh("git -C %s rev-parse --short HEAD" % VERIF).stdout.strip()
+    else:
+        matrix[sd] = {"own_property": sd.split("-")[0], "detected_by": row, "seconds": round(time.time() - t0)}
     json.dump(matrix, open(out_path, "w"), indent=1, sort_keys=True)
     print(sd, row, flush=True)
 # leave the evidence files of the clean tree behind
-for pid in claimed:
+for pid in (sorted({s.split("-")[0] for s in seeds}) if own_only else claimed):
     sh("cd %s && timeout 900 ./check %s --tier quick" % (VERIF, pid))
 print("done")
